@@ -190,7 +190,7 @@ func main() {
 		must(os.WriteFile(filepath.Join(dir, "static.go"), static, 0o644))
 		sfx := fmt.Sprintf("package %s\n\nconst vSuffix = %s\n\nconst vRangeTable = %s\n", pkg, strconv.Quote(string(suffix)), strconv.Quote(string(rangeTable)))
 		must(os.WriteFile(filepath.Join(dir, "suffix.go"), []byte(sfx), 0o644))
-		data := tmpl.Data{Pkg: pkg, Index: idx, Types: types, HasState: fl.HasState(), HasMemo: fl.HasMemo()}
+		data := tmpl.Data{Pkg: pkg, Index: idx, Types: types, Funcs: staticFuncs, HasState: fl.HasState(), HasMemo: fl.HasMemo()}
 		for _, name := range []string{"glue.go", "vprobe.go", "run.go"} {
 			src, err := tmpl.Render(name, data)
 			if err != nil {
@@ -214,7 +214,10 @@ func must(err error) {
 // rewrite turns the formatted seed output into the runtime package source:
 // grammar-specific declarations removed, package renamed, "sync" redirected
 // to the shim, vtick inserted at every *parser method entry and loop body.
+var staticFuncs []string
+
 func rewrite(src []byte, pkg string) ([]byte, []string, error) {
+	staticFuncs = nil
 	fset := token.NewFileSet()
 	f, err := parser.ParseFile(fset, "static.go", src, parser.ParseComments|parser.SkipObjectResolution)
 	if err != nil {
@@ -253,6 +256,9 @@ func rewrite(src []byte, pkg string) ([]byte, []string, error) {
 				}
 			}
 		case *ast.FuncDecl:
+			if d.Recv == nil && d.Body != nil && d.Type.TypeParams == nil && d.Name.Name != "init" && d.Name.Name != "main" && d.Name.Name != "rangeTable" {
+				staticFuncs = append(staticFuncs, d.Name.Name)
+			}
 			if d.Recv == nil || len(d.Recv.List) != 1 || d.Body == nil {
 				continue
 			}
